@@ -19,7 +19,7 @@ class C03(EngineProp):
         "'waiting for a scheduled retry' = a delayed re-queue (TickAddEvent) in the runner's wake-up heap; waiter timeouts and the workflow timeout are not counted as pending work (a waiting run is the canonical idle run)",
         "'already delivered' = ticks sitting in the runner's tick buffer or in the adapter's receive queue when the idle event is published",
     ]
-    gen_kwargs = dict(collect=True, waits=True, retries=True, unhandled=True)
+    gen_kwargs = dict(collect=True, waits=True, retries=True, unhandled=True, resume=True)
     expect_result = True
     liveness = True
 
